@@ -7,6 +7,7 @@
 //! property HOLDS — that is the verifier's job — it only supplies concrete failing inputs for replay.
 mod c01;
 mod c01b;
+mod c01c;
 mod c02;
 mod c03;
 mod c13;
@@ -56,6 +57,7 @@ fn main() {
     let mut all: Vec<W> = Vec::new();
     all.extend(c01::witnesses());
     all.extend(c01b::witnesses());
+    all.extend(c01c::witnesses());
     all.extend(c02::witnesses());
     all.extend(c03::witnesses());
     all.extend(c13::witnesses());
